@@ -22,7 +22,7 @@ RULE = ("record lists = every multiset of m<=M records over a 4-pixel alphabet (
         "records, validator V on the output, explicit temp_dir empty after return (plus one fresh-interpreter run). Non-trivial: >=2 "
         "chunks. Distinct by construction.")
 BOUNDS = {"quick": "M=3; mergebuf {1,2,1e6} x max_merge {1,2,200} on the symmetric fixed-width line, 3 diagonal combinations for streams with an empty chunk / square mode / variable table; empty-chunk insertions on partitions with <=2 blocks",
-          "thorough": "M=4; mergebuf {1,2,3,m,1e6} x max_merge {1,2,3,200} (full product for M<=3 and on the symmetric fixed-width line for M=4, three diagonal combinations for square mode / variable table at M=4); empty-chunk insertions everywhere for M<=3"}
+          "thorough": "M=4; mergebuf {1,2,3,m,1e6} x max_merge {1,2,3,200} in full for M<=3; at M=4 mergebuf {1,2,4,1e6} x max_merge {1,2,200} on the symmetric fixed-width line and three diagonal combinations for square mode / variable table; empty-chunk insertions everywhere for M<=3"}
 ASSUMPTIONS = ["records repeated inside one chunk are pre-summed by the harness (a chunk must not contain duplicate pixels; combining "
                "across chunks is what the property is about)", "values are small integers / dyadic rationals: sums are exact"]
 EXPECT_CLASSES = {"*": ["chunks:1", "chunks:2", "chunks:3", "two-pass", "single-pass", "with-empty-chunk", "cli"]}
@@ -86,8 +86,9 @@ def _api(R, unit, tier, only):
     for c in ("count", "score"):
         for k, v in models.ref_aggregate(((p, val[c]) for p, val in recs)).items():
             want.setdefault(k, {})[c] = v
-    bufs = sorted({1, 2, 3, max(m, 1), 10 ** 6}) if th else [1, 2, 10 ** 6]
-    mms = [1, 2, 3, 200] if th else [1, 2, 200]
+    deep = th and m <= 3
+    bufs = sorted({1, 2, 3, max(m, 1), 10 ** 6}) if deep else ([1, 2, m, 10 ** 6] if th else [1, 2, 10 ** 6])
+    mms = [1, 2, 3, 200] if deep else [1, 2, 200]
     parts = alpha.ordered_set_partitions(m)
     streams = []
     for part in parts:
